@@ -164,6 +164,25 @@ CHECKS = {
         "(#titleparts start index) is excluded by signature.",
         "DESIGN.md 5/C18",
     ),
+    "C15": (
+        "exploration",
+        "property-based testing (Hypothesis token-soup contents x 14 "
+        "embedding contexts x 4 tag spellings) with an explicit entity-table "
+        "oracle, a decode round trip and a metamorphic opaque-atom relation; "
+        "comment-deletion differential",
+        "Generated nowiki contents are embedded at top level and inside "
+        "template / parser-function arguments, link text, list items, table "
+        "cells, headings and elements; the expansion must be the content with "
+        "exactly the documented entity table applied (decoding gives it "
+        "back), parse a single text node, and expansion, template_fn log and "
+        "parse tree must equal those obtained with an inert word substituted "
+        "back. Generated documents with closed comments must expand and parse "
+        "like the same document with the comments deleted.",
+        "Trusts the entity table transcribed from common.py's documentation "
+        "comment and refs/tree.py strict(); comment bodies never contain "
+        "nowiki tags.",
+        "DESIGN.md 5/C15",
+    ),
 }
 
 NOT_YET = "check not built yet in this round (planned in DESIGN.md section 5)"
